@@ -658,6 +658,33 @@ typedef struct {
 } p256_jacobian;
 
 /*
+ * Constant-time range check for a coordinate (32 bytes, unsigned
+ * big-endian): returned value is 1 if the value is lower than the field
+ * modulus p, 0 otherwise.
+ */
+static uint32_t
+coord_in_range(const unsigned char *buf)
+{
+	static const unsigned char P256_P[] = {
+		0xFF, 0xFF, 0xFF, 0xFF, 0x00, 0x00, 0x00, 0x01,
+		0x00, 0x00, 0x00, 0x00, 0x00, 0x00, 0x00, 0x00,
+		0x00, 0x00, 0x00, 0x00, 0xFF, 0xFF, 0xFF, 0xFF,
+		0xFF, 0xFF, 0xFF, 0xFF, 0xFF, 0xFF, 0xFF, 0xFF
+	};
+	uint32_t cc;
+	int i;
+
+	cc = 0;
+	for (i = 31; i >= 0; i --) {
+		uint32_t w;
+
+		w = (uint32_t)buf[i] - (uint32_t)P256_P[i] - cc;
+		cc = w >> 31;
+	}
+	return cc;
+}
+
+/*
  * Decode a point. The returned point is in Jacobian coordinates, but
  * with z = 1. If the encoding is invalid, or encodes a point which is
  * not on the curve, or encodes the point at infinity, then this function
@@ -675,6 +702,12 @@ point_decode(p256_jacobian *P, const unsigned char *buf)
 	 * Header byte shall be 0x04.
 	 */
 	r = EQ(buf[0], 0x04);
+
+	/*
+	 * Coordinates must be lower than the field modulus (the conversion
+	 * to Montgomery representation below would silently reduce them).
+	 */
+	r &= coord_in_range(buf + 1) & coord_in_range(buf + 33);
 
 	/*
 	 * Decode X and Y coordinates, and convert them into
